@@ -31,6 +31,7 @@ func init() {
 			{"C17-R7", "EDS locality groups are emitted in sorted order", c17r7},
 			{"C17-R8", "endpoint lists are never built in map iteration order", c17r8},
 			{"C17-R9", "no last-one-wins assignment under a map range", c17r9},
+			{"C17-R10", "a sort of map keys separates distinct keys", c17r10},
 		},
 	})
 }
@@ -1168,6 +1169,7 @@ func c17r5(c *Ctx) {
 // lies under the opposite edge of `P(corresponding arguments...)` in its caller cannot reach the store and is skipped
 // (the east-west gateway case: the caller passes no DestinationRule policy exactly when the callee's `terminate` holds).
 var c17r6Exceptions = map[string]string{
+	"(*pilot/pkg/model.PushContext).setDestinationRules|DestinationRule.Host": "resolves the rule's short host name to the FQDN in place, in the object the config store handed out. ResolveShortnameToFQDN is idempotent (a name with a dot, which every result has, is returned unchanged) and depends only on the rule's own namespace and domain: every snapshot reads the same host before and after the write, so no output depends on the history. Still a write to shared state (benign race with other readers of the store).",
 	"pilot/pkg/networking/core.buildGatewayListenerTLSContext|ServerTLSSettings.CipherSuites": "normalises the Gateway server's cipher list in place with FilterCipherSuites, which is idempotent (filter + dedupe of an already filtered list is the identity): the value generation reads is the same before and after the write, so no output depends on the history. Still a write to shared state (benign race).",
 }
 
@@ -1192,7 +1194,7 @@ func copyCtorKind(name string) int { // 0 none, 1 shallow, 2 deep
 			return 2
 		}
 	}
-	for _, pre := range []string{"ShallowCopy", "shadowCopy", "shallowCopy", "Copy"} {
+	for _, pre := range []string{"ShallowCopy", "ShallowClone", "shadowCopy", "shallowCopy", "Copy"} {
 		if strings.HasPrefix(name, pre) {
 			return 1
 		}
@@ -1225,6 +1227,9 @@ func (a *freshAn) fresh(v ssa.Value, fn *ssa.Function, depth int, seen map[ssa.V
 	case *ssa.Extract:
 		if call, ok := x.Tuple.(*ssa.Call); ok {
 			return a.callFresh(call, x.Index, fn, depth, ctx, deep)
+		}
+		if ta, ok := x.Tuple.(*ssa.TypeAssert); ok && x.Index == 0 {
+			return a.fresh(ta.X, fn, depth, seen, ctx, deep) // v, ok := x.(T)
 		}
 		return false
 	case *ssa.Call:
@@ -1352,8 +1357,19 @@ func (a *freshAn) cellFresh(addr ssa.Value, load *ssa.UnOp, fn *ssa.Function, de
 	case *ssa.Alloc:
 		return true // zero value
 	case *ssa.FieldAddr:
-		if _, isAlloc := x.X.(*ssa.Alloc); isAlloc {
-			return true // field of a local struct: zero value
+		if al, isAlloc := x.X.(*ssa.Alloc); isAlloc {
+			// field of a local struct: the zero value, unless the struct was assigned as a whole - then what was
+			// assigned must be a deep copy
+			if al.Referrers() != nil {
+				for _, ref := range *al.Referrers() {
+					if st, ok := ref.(*ssa.Store); ok && st.Addr == al {
+						if !a.fresh(st.Val, fn, depth, map[ssa.Value]bool{}, ctx, true) {
+							return false
+						}
+					}
+				}
+			}
+			return true
 		}
 		return a.fresh(x.X, fn, depth, seen, ctx, true)
 	}
@@ -1380,6 +1396,13 @@ func (a *freshAn) callFresh(call *ssa.Call, idx int, fn *ssa.Function, depth int
 		return kindOK(k)
 	}
 	if !isIstioFunc(sc) || len(sc.Blocks) == 0 {
+		// a generated getter of an API message hands out a part of its receiver: as fresh as a field of the receiver that
+		// was not stored here, i.e. the receiver must be deep-fresh
+		if strings.HasPrefix(name, "Get") && sc.Signature.Recv() != nil && len(call.Call.Args) == 1 {
+			if _, isAPI := isAPIType(sc.Signature.Recv().Type()); isAPI {
+				return a.fresh(call.Call.Args[0], fn, depth, map[ssa.Value]bool{}, ctx, true)
+			}
+		}
 		return strings.HasPrefix(name, "New") && !deep
 	}
 	if depth == 0 || a.inFlight[sc] {
@@ -1531,6 +1554,9 @@ func c17r6(c *Ctx) {
 		}
 	}
 	c.Check("generator entry points found", token.NoPos, len(entries) >= 15, fmt.Sprintf("%d Generate/GenerateDeltas methods in pilot/pkg/xds", len(entries)))
+	// the snapshot is built from the same shared configuration objects (the store hands out pointers, and the previous
+	// snapshot's objects are carried over): its construction is held to the same rule
+	entries = append(entries, p.Func(pkgModel, "PushContext", "createNewContext"), p.Func(pkgModel, "PushContext", "updateContext"))
 	reach := p.CG().Reach(entries, nil)
 	a := &freshAn{p: p, callers: p.staticCallers(), inFlight: map[*ssa.Function]bool{}, pure: map[*ssa.Function]int{}}
 	nStores, nFresh, nCorr := 0, 0, 0
